@@ -42,7 +42,8 @@ COMMENTS = ["1/0", "(", ")", "-", "mV", "x = 1", "a*b + (c", "#", "µA/cm² → 
             "}", "\\", "lambda: 0", "e", "long " + "abc " * 750, "word " * 40 + "!",
             "the membrane potential is held at rest until the stimulus arrives and is then released, see the text."]
 UNITS = ["mV", "ms", "mM", "uA/cm**2", "1", "ms**-1", "mS/uF", "pA/pF", "nA", "um**2", "mol/l", "mS*mm**-2"]
-DESCS = ["a gate", "", "rate k (1/ms)", "see # 3", "1/0", "9**9", "µ-unit → ok", "x = 1", "(", "it's"]
+DESCS = ["a gate", "", "rate k (1/ms)", "see # 3", "1/0", "9**9", "µ-unit → ok", "x = 1", "(", "it's",
+         r"rate \x of", r"C:\users\new", r"\N", r"50 \u units", r"tab\t and \alpha"]  # backslashes are ordinary characters of a description
 PLACES = ("at-top", "after-decl", "after-header", "in-block", "after-block", "at-end")
 TRIVIA = ("comment", "blank")
 FAILS = ("load-raises", "load-hangs", "membership-changed", "codegen-raises", "code-differs", "layout-differs")
